@@ -201,7 +201,7 @@ M('tool-option-synonym-ignored', 'fault', ['C20'], ['SA-SIB.tool_options'],
 M('tool-unknown-keyword', 'fault', ['C20'], ['SA-ATTR'],
   [(GEN, "                    iso.add_directory(iso_path, rr_name=rr_name,\n                                      joliet_path=joliet_path,", "                    iso.add_directory(iso_path, rr_name=rr_name,\n                                      joliet=joliet_path,")], 'add_directory')
 M('tool-prefix-from-joined-name', 'fault', ['C20', 'C18'], ['SA-STR.tool'],
-  [(GEN, "            prefix = filename[:5]\n", "            prefix = filemangle[:5]\n")], 'collision prefix')
+  [(GEN, "            basename = filename\n        numdigits = 3\n", "            basename = filemangle\n        numdigits = 3\n")], 'collision prefix')
 M('twin-tool-reformat', 'twin', ['C20'], [],
   [(GEN, "            rr_name = None\n            if args.rational_rock or args.rock:\n                rr_name = basename\n", "            rr_name = None\n            want_rr = args.rational_rock or args.rock\n            if want_rr:\n                rr_name = basename\n")])
 
@@ -346,12 +346,12 @@ M('dr-date-offset-from-process-timezone', 'fault', ['C19'], ['SA-DATE.instant'],
 M('twin-dr-date-offset-via-temp', 'twin', ['C19'], [],
   [(DT, "        self.second = local.tm_sec\n        self.gmtoffset = utils.gmtoffset_from_tm(tm, local)\n", "        self.second = local.tm_sec\n        quarter_hours = utils.gmtoffset_from_tm(tm, local)\n        self.gmtoffset = quarter_hours\n")])
 
-M('tool-collision-counter-reaches-1000', 'fault', ['C20', 'C18'], ['SA-STR.tool'],
-  [(GEN, "        while True:\n            if is_dir:\n                tmp = '%s%.03d' % (prefix, currnum)", "        while currnum <= 1000:\n            if is_dir:\n                tmp = '%s%.03d' % (prefix, currnum)"),
-   (GEN, "            currnum += 1\n            if currnum == 1000:\n                return None\n", "            currnum += 1\n        else:\n            return None\n")], 'renumbered length')
-M('twin-tool-collision-counter-bounded-loop', 'twin', ['C20', 'C18'], [],
-  [(GEN, "        while True:\n            if is_dir:\n                tmp = '%s%.03d' % (prefix, currnum)", "        while currnum < 1000:\n            if is_dir:\n                tmp = '%s%.03d' % (prefix, currnum)"),
-   (GEN, "            currnum += 1\n            if currnum == 1000:\n                return None\n", "            currnum += 1\n        else:\n            return None\n")])
+M('tool-collision-counter-outgrows-its-padding', 'fault', ['C20', 'C18'], ['SA-STR.tool'],
+  [(GEN, "            if currnum == 10 ** numdigits:\n                if numdigits == 8:\n                    return None\n                numdigits += 1\n                currnum = 0\n", "            if currnum == 10 ** 8:\n                return None\n")], 'renumbered length')
+M('tool-prefix-ignores-the-padding-width', 'fault', ['C20', 'C18'], ['SA-STR.tool'],
+  [(GEN, "            prefix = basename[:8 - numdigits]\n", "            prefix = basename[:5]\n")], 'renumbered length')
+M('twin-tool-collision-gives-up-at-greater-equal', 'twin', ['C20', 'C18'], [],
+  [(GEN, "            if currnum == 10 ** numdigits:\n", "            if currnum >= 10 ** numdigits:\n")])
 
 M('twin-new-bounded-counter-loop-in-parser', 'twin', ['C15'], [],
   [(PY, "        offset = 0\n        out = []\n        extent_to_ptr = {}\n", "        offset = 0\n        out = []\n        extent_to_ptr = {}\n        tries = 0\n        while tries < 3:\n            tries += 1\n")])
